@@ -163,6 +163,9 @@ func run(_ *testing.T, c Case) engine.Verdict {
 		before, wbefore := w.Len(), w.writes
 		orig := append([]byte(nil), rec...)
 		var err error
+		if len(rec) == 0 && i%2 == 1 {
+			rec = nil // an empty record may be handed over as a nil slice as well
+		}
 		if p := safely(func() { err = snd.Send(rec) }); p != nil {
 			return engine.Failf(sig+"/send-panic", "Send of record %d panicked: %v", i, p)
 		}
@@ -305,7 +308,10 @@ func runDirect(c Case) engine.Verdict {
 	}
 	done := make(chan error, 1)
 	go func() {
-		for _, rec := range want {
+		for i, rec := range want {
+			if len(rec) == 0 && i%2 == 1 {
+				rec = nil // an empty record may be handed over as a nil slice as well
+			}
 			if err := cli.Send(rec); err != nil {
 				done <- err
 				return
